@@ -118,3 +118,11 @@ Proof.
   - vm_compute. repeat split; intros l H; inversion H; subst; repeat constructor.
   - do 2 eexists. split; [vm_compute; reflexivity|]. split; [reflexivity|]. vm_compute. repeat constructor.
 Qed.
+
+Example result_fresh_example :
+  exists w' l, exec good_flags ex_world (CSimStats 0 (Ref 10) 2) = Some (w', Ref l) /\ length (hp ex_world) <= l /\
+               guard good_flags ex_world (CSimStats 0 (Ref 10) 2) = true /\ call_wf ex_world (CSimStats 0 (Ref 10) 2).
+Proof.
+  do 2 eexists. split; [vm_compute; reflexivity|]. split; [vm_compute; repeat constructor|]. split; [reflexivity|].
+  vm_compute. split; intros l H; inversion H; subst; repeat constructor.
+Qed.
